@@ -26,6 +26,8 @@ WHY = {
  'donothing-unreadable-default': 'RETURNING rows are matched to elements by position; skipping needs a key to match on, which is exactly what is unreadable here',
  'returning-single-unreadable-default': 'the single-column RETURNING shortcut assumes that column is the key; choosing the field needs a wider change of the create callback',
  'unique-name-collision': 'NamingStrategy.UniqueName is public naming behaviour; changing generated constraint names breaks existing databases',
+ 'nested-context-cancelled': 'which context the ROLLBACK TO of a failed nested block runs under is a design decision: C18 wants the caller\'s, and with it cancelled database/sql refuses the statement; reporting the refused rollback would at least need the deferred function to return it',
+ 'hook-write-block-in-association-save': 'association saves run under Session{DisableNestedTransaction: true} and the hooks of the associated records inherit that session; restoring the caller\'s setting for hooks needs the original value carried along',
  'preparestmt-bounded-pool': 'documented trade-off in prepare() (it cannot hold the lock while waiting for a connection)',
 }
 
